@@ -181,11 +181,22 @@ func c01Systematic() []c01Case {
 				case 1:
 					for _, a := range cls {
 						add(&ref.Call{Fn: f.name, Args: []ref.Expr{operandExpr(a, "x", false)}}, dataFor(a), "fn:"+f.name+":"+a.name)
+						if a.lit && !a.quot {
+							// the argument written as a literal (a backend that writes "x.length" must not write "5.length")
+							add(&ref.Call{Fn: f.name, Args: []ref.Expr{operandExpr(a, "x", true)}}, dataFor(), "fn:"+f.name+":"+a.name+":lit")
+						}
+					}
+					for _, gn := range []string{"G_INT", "G_NEG", "G_FLOAT", "G_NULL", "app.name", "G_LIST"} {
+						c01Sys = append(c01Sys, c01Case{E: &ref.Call{Fn: f.name, Args: []ref.Expr{&ref.Global{Name: gn}}}, Data: dataFor(), Cell: "fn:" + f.name + ":global:" + gn, Pos: -1, Globals: c01Globals})
 					}
 				case 2:
 					for _, a := range cls {
 						for _, b := range cls {
 							add(&ref.Call{Fn: f.name, Args: []ref.Expr{operandExpr(a, "x", false), operandExpr(b, "y", false)}}, dataFor(a, b), "fn:"+f.name+":"+a.name+":"+b.name)
+							if a.lit && !a.quot && (b.name == "int" || b.name == "ascii") {
+								add(&ref.Call{Fn: f.name, Args: []ref.Expr{operandExpr(a, "x", true), operandExpr(b, "y", true)}}, dataFor(), "fn:"+f.name+":"+a.name+":"+b.name+":lit")
+								add(&ref.Call{Fn: f.name, Args: []ref.Expr{operandExpr(b, "y", true), operandExpr(a, "x", true)}}, dataFor(), "fn:"+f.name+":"+b.name+":"+a.name+":lit")
+							}
 						}
 					}
 				case 3:
